@@ -1,5 +1,5 @@
 (* M7 / C16: human-readable action descriptions.
-   [display]       = impl fmt::Display for MigrationAction   (vespertide-core/src/action.rs:211-348)
+   [display]       = impl fmt::Display for MigrationAction   (vespertide-core/src/action.rs:211-376)
    [format_action] = the CLI's own renderer used by `vespertide diff` (vespertide-cli/src/commands/diff.rs:42-225),
                      with colouring switched off (NO_COLOR): `colored` then emits the plain text.
    A Rust panic is the explicit outcome [Panic].  Strings are UTF-8 byte strings exactly as Rust holds
@@ -45,6 +45,17 @@ Definition is_char_boundary (s : string) (i : nat) : bool :=
 Definition slice_to (s : string) (n : nat) : option string :=
   if (Nat.leb n (String.length s) && is_char_boundary s n)%bool then Some (substring 0 n s) else None.
 
+(* `let mut end = n; while !s.is_char_boundary(end) { end -= 1 }` (action.rs:364-367, fix b4532c3): the largest
+   char boundary <= n.  Index 0 is always a boundary, so the loop never underflows; structural in n. *)
+Fixpoint floor_char_boundary (s : string) (n : nat) : nat :=
+  match n with
+  | O => O
+  | S k => if is_char_boundary s (S k) then S k else floor_char_boundary s k
+  end.
+
+Fixpoint all_ascii (s : string) : bool :=
+  match s with EmptyString => true | String a r => (N.ltb (N_of_ascii a) 128 && all_ascii r)%bool end.
+
 (* ---------- Display (action.rs:211-348) ---------- *)
 (* 260-279 and diff.rs:135-143: more than 30 chars -> first 27 chars + "..." *)
 Definition truncate_comment (c : string) : string :=
@@ -83,16 +94,21 @@ Definition display (a : action) : outcome :=
   | RemoveConstraint t c => Txt ("RemoveConstraint: " +++ constraint_display t c)
   | RenameTable f to => Txt ("RenameTable: " +++ f +++ " -> " +++ to)
   | RawSql sql =>
-      (* 337-345: if sql.len() > 50 { format!("{}...", &sql[..47]) } — a BYTE slice *)
+      (* 359-372: if sql.len() > 50 { end = largest char boundary <= 47; format!("{}...", &sql[..end]) } *)
       if Nat.ltb 50 (String.length sql)
-      then match slice_to sql 47 with
+      then match slice_to sql (floor_char_boundary sql 47) with
            | Some p => Txt ("RawSql: " +++ p +++ "...")
            | None => Panic
            end
       else Txt ("RawSql: " +++ sql)
   end.
 
-(* the decidable hypothesis of the positive theorem = negation of the D3 classifier *)
+(* the text the code produced before fix b4532c3 wherever it did not panic: a plain byte slice at 47 *)
+Definition display_rawsql_before_fix (sql : string) : outcome :=
+  if Nat.ltb 50 (String.length sql) then Txt ("RawSql: " +++ substring 0 47 sql +++ "...") else Txt ("RawSql: " +++ sql).
+
+(* the class of the former finding C16-display-rawsql-slice (fixed by b4532c3; kept for coverage statistics only:
+   a fixed finding suppresses nothing) *)
 Definition rawsql_ok (a : action) : bool :=
   match a with
   | RawSql sql => (Nat.leb (String.length sql) 50 || is_char_boundary sql 47)%bool
